@@ -344,3 +344,128 @@ package xy
 //@     ghost m int = 0 step m + 1
 //@     invariant m >= 0 && i == mul(m + 1, stride) && stride == strideOf(layout) && mul(m + 2, stride) == mul(m + 1, stride) + stride && len(lineSegmentCoordinates) == mul(cnt(len(lineSegmentCoordinates), stride), stride) && (m == 0 || mul(m, stride) < len(lineSegmentCoordinates))
 //@     invariant !lineOn(point[0], point[1], cells(lineSegmentCoordinates), off(lineSegmentCoordinates), stride, m)
+
+// ---------------------------------------------------------------------------
+// C13 (what contracts decide): the hull code reads only coordinates that exist, never writes memory of the
+// caller, and returns geometry values built from well-formed arrays
+
+// The scan is used through a trusted contract: it needs three coordinates to start (its three unconditional
+// pushes; checked at the call site) and returns a fresh ring. Its inner loop pops while the turn is
+// counter-clockwise without re-checking the stack size, which is safe only because the input is radially
+// sorted about the first point - Graham-scan reasoning that no contract here establishes.
+//@ func convexHullCalculator.grahamScan
+//@   floats real
+//@   trusted
+//@   requires calc.stride >= 2 && calc.stride == strideOf(calc.layout) && whole(len(coordData), calc.stride) && len(coordData) >= 3 * calc.stride
+//@   ensures (fresh(res) || res == nil) && len(res) >= 4 * calc.stride && whole(len(res), calc.stride)
+//@   modifies nothing
+
+//@ func convexHullCalculator.padArray3
+//@   floats real
+//@   requires calc.stride >= 1 && len(pts) >= 1
+//@   ensures fresh(res) && len(res) == 3 * calc.stride
+//@   modifies nothing
+//@   loop 1:
+//@     invariant len(pad) == 3 * calc.stride && fresh(pad) && i >= 0
+
+// sorts its argument in place (first the lowest point to the front, then radially about it)
+//@ func convexHullCalculator.preSort
+//@   floats real
+//@   trusted
+//@   requires calc.stride >= 2 && len(pts) >= 2
+//@   modifies pts
+
+//@ func convexHullCalculator.computeOctPts
+//@   floats real
+//@   lemmas mulCancel, mulCancel2, mulNonneg, mulMono
+//@   requires calc.stride >= 2 && whole(len(inputPts), calc.stride) && len(inputPts) >= calc.stride
+//@   ensures fresh(res) && len(res) == 8 * calc.stride
+//@   modifies nothing
+//@   loop 1:
+//@     ghost q int = 0 step q + 1
+//@     invariant len(pts) == 8 * stride && len(pts) == mul(8, stride) && fresh(pts) && stride == calc.stride && q >= 0 && j == mul(q, stride) && mul(q + 1, stride) == mul(q, stride) + stride
+//@   loop 2:
+//@     invariant len(pts) == 8 * stride && fresh(pts) && stride == calc.stride && j >= 0 && j + stride <= len(pts)
+//@   loop 3:
+//@     ghost m int = 1 step m + 1
+//@     invariant len(pts) == 8 * stride && fresh(pts) && stride == calc.stride && m >= 1 && i == mul(m, stride) && mul(m + 1, stride) == mul(m, stride) + stride && len(inputPts) == mul(cnt(len(inputPts), stride), stride) && i <= len(inputPts)
+//@   loop 4:
+//@     invariant len(pts) == 8 * stride && fresh(pts)
+//@   loop 5:
+//@     invariant len(pts) == 8 * stride && fresh(pts)
+//@   loop 6:
+//@     invariant len(pts) == 8 * stride && fresh(pts)
+//@   loop 7:
+//@     invariant len(pts) == 8 * stride && fresh(pts)
+//@   loop 8:
+//@     invariant len(pts) == 8 * stride && fresh(pts)
+//@   loop 9:
+//@     invariant len(pts) == 8 * stride && fresh(pts)
+//@   loop 10:
+//@     invariant len(pts) == 8 * stride && fresh(pts)
+//@   loop 11:
+//@     invariant len(pts) == 8 * stride && fresh(pts)
+
+//@ func convexHullCalculator.computeOctRing
+//@   floats real
+//@   lemmas mulCancel, mulCancel2, mulNonneg, mulMono
+//@   requires calc.stride >= 2 && whole(len(inputPts), calc.stride) && len(inputPts) >= calc.stride
+//@   ensures res == nil || (fresh(res) && whole(len(res), calc.stride) && len(res) >= 3 * calc.stride)
+//@   modifies nothing
+//@   loop 1:
+//@     ghost q int = 1 step q + 1
+//@     ghost u int = 1 step (len(uniquePts) - mul(u, stride) == 0 ? u : u + 1)
+//@     invariant stride == calc.stride && len(octPts) == mul(8, stride) && fresh(octPts) && q >= 1 && i == mul(q, stride) && mul(q + 1, stride) == mul(q, stride) + stride
+//@     invariant u >= 1 && u <= q && len(uniquePts) == mul(u, stride) && mul(u + 1, stride) == mul(u, stride) + stride && fresh(uniquePts)
+
+// the reduced point set is a fresh array of at least three coordinates; the argument is only read
+//@ func convexHullCalculator.reduce
+//@   floats real
+//@   lemmas mulCancel, mulCancel2, mulNonneg, mulMono
+//@   requires calc.stride >= 2 && calc.stride == strideOf(calc.layout) && whole(len(inputPts), calc.stride) && len(inputPts) >= calc.stride
+//@   ensures [fresh] (fresh(res) || res == inputPts) && whole(len(res), calc.stride) && (len(inputPts) >= 3 * calc.stride ==> len(res) >= 3 * calc.stride)
+//@   modifies nothing
+//@   loop 1:
+//@     ghost q int = 0 step q + 1
+//@     invariant q >= 0 && i == mul(q, calc.stride) && mul(q + 1, calc.stride) == mul(q, calc.stride) + calc.stride && len(polyPts) == mul(cnt(len(polyPts), calc.stride), calc.stride) && i <= len(polyPts)
+//@     invariant fresh(reducedSet) && reducedSet.layout == calc.layout && reducedSet.size >= 0 && (q > 0 ==> reducedSet.size >= 1)
+//@   loop 2:
+//@     ghost q2 int = 0 step q2 + 1
+//@     invariant q2 >= 0 && i == mul(q2, calc.stride) && mul(q2 + 1, calc.stride) == mul(q2, calc.stride) + calc.stride && len(inputPts) == mul(cnt(len(inputPts), calc.stride), calc.stride) && i <= len(inputPts)
+//@     invariant fresh(reducedSet) && reducedSet.layout == calc.layout && reducedSet.size >= 1
+
+//@ func convexHullCalculator.isBetween
+//@   floats real
+//@   requires len(c1) >= 2 && len(c2) >= 2 && len(c3) >= 2
+//@   modifies nothing
+
+//@ func convexHullCalculator.cleanRing
+//@   floats real
+//@   lemmas mulCancel, mulCancel2, mulNonneg, mulMono
+//@   requires calc.stride >= 2 && whole(len(original), calc.stride) && len(original) >= calc.stride
+//@   ensures fresh(res) && whole(len(res), calc.stride) && len(res) >= calc.stride
+//@   modifies nothing
+//@   loop 1:
+//@     ghost q int = 0 step q + 1
+//@     ghost u int = 0 step cnt(len(cleanedRing), calc.stride)
+//@     invariant q >= 0 && i == mul(q, calc.stride) && mul(q + 1, calc.stride) == mul(q, calc.stride) + calc.stride && mul(q + 2, calc.stride) == mul(q + 1, calc.stride) + calc.stride && len(original) == mul(cnt(len(original), calc.stride), calc.stride)
+//@     invariant u >= 0 && len(cleanedRing) == mul(u, calc.stride) && mul(u + 1, calc.stride) == mul(u, calc.stride) + calc.stride && fresh(cleanedRing) && (previousDistinctCoordinate != nil ==> len(previousDistinctCoordinate) == calc.stride)
+
+//@ func convexHullCalculator.lineOrPolygon
+//@   floats real
+//@   requires calc.stride >= 2 && calc.stride == strideOf(calc.layout) && whole(len(coordinates), calc.stride) && len(coordinates) >= calc.stride
+//@   ensures tag(res) != 0
+//@   modifies nothing
+
+// the hull never writes memory of the caller: everything that is sorted or scanned is the de-duplicated copy
+//@ func convexHullCalculator.getConvexHull
+//@   floats real
+//@   requires calc.stride >= 2 && calc.stride == strideOf(calc.layout) && whole(len(calc.inputPts), calc.stride)
+//@   ensures len(calc.inputPts) == 0 <==> tag(res) == 0
+//@   modifies nothing
+
+//@ func ConvexHullFlat
+//@   floats real
+//@   requires strideOf(layout) >= 2 && whole(len(coords), strideOf(layout))
+//@   ensures len(coords) == 0 <==> tag(res) == 0
+//@   modifies nothing
